@@ -324,6 +324,9 @@ type Report struct {
 }
 
 func newReport(prop string, p *Prog) *Report {
+	pathsProg = p
+	helperEdgeMemo = map[string]bool{}
+	mergedGuardCache = map[*ssa.BasicBlock][]Guard{}
 	return &Report{Prop: prop, P: p, Analysed: map[string]bool{}, keys: map[string]int{}}
 }
 
